@@ -43,6 +43,7 @@ def event_options():
                 f"{prefix}__inband": st.sampled_from(["1", "0"]),
                 f"{prefix}__start": st.integers(0, 60000).map(lambda ms: str(ms * ts // 1000)),
                 f"{prefix}__version": st.sampled_from(["0", "1"]),
+                f"{prefix}__value": st.sampled_from(["1", "0", "abc", "7"]),
             })
         return st.sampled_from([1, 10, 100, 1000, 240, 90000]).flatmap(build)
     return st.sampled_from(["ping", "scte35", "ping,scte35"]).flatmap(
